@@ -1449,6 +1449,501 @@ theorem syncHeader_total {R : Router} {st : St} (hI : Inv R st) (h : Hdr) :
                   rw [ha1]
                   rfl
 
+/-! ## msc (clique-style router): invariant, fork choice, what acceptance establishes -/
+namespace MscP
+open Poly.Model.LCPosa.Msc
+
+/-- fixed-format fields of an accepted msc header -/
+structure MWF (C : Cfg) (h : Hdr) : Prop where
+  len : extraVanity + extraSeal ≤ h.extra.length
+  plain : h.number % C.epoch ≠ 0 → h.extra.length = extraVanity + extraSeal
+  checkpoint : h.number % C.epoch = 0 →
+    extraVanity + extraSeal < h.extra.length ∧ (h.extra.length - (extraVanity + extraSeal)) % addrLen = 0 ∧
+    h.coinbase = zeroAddr ∧ h.nonce = .drop
+  nonce : h.nonce ≠ .other
+  mix : h.mixZero = true
+  uncle : h.uncleOk = true
+  diff : h.difficulty = diffInTurn ∨ h.difficulty = diffNoTurn
+
+/-- what the chain invariant of msc records per stored header (facts that do not depend on the store) -/
+structure MGood (C : Cfg) (s : Stored) (l : List Stored) : Prop where
+  link : Link s l
+  sealOk : ∃ a, s.hdr.signer = some a
+  wf : MWF C s.hdr
+
+instance (C : Cfg) : HasLink (MGood C) := ⟨fun h => h.link⟩
+
+abbrev MChain (C : Cfg) (st : St) (g : Genesis) : Id → List Stored → Prop := GChainP (MGood C) st g
+
+structure MInv (C : Cfg) (st : St) : Prop where
+  noGen : st.genesis = none → (∀ id, st.hdrs id = none) ∧ (∀ i, st.canon i = none)
+  gen : ∀ g, st.genesis = some g →
+    st.hdrs g.hdr.id = some (rootOf g) ∧ g.hdr.number % C.epoch = 0 ∧ C.epoch ≠ 0 ∧
+    (∀ id s, st.hdrs id = some s → ∃ l, MChain C st g id (s :: l)) ∧ CanonInv st g
+
+/-- the search over the most recent headers, on a chain -/
+theorem recentSearch_spec {C : Cfg} {st : St} {g : Genesis} (target : Addr) :
+    ∀ (n : Nat) {hash : Id} {c : List Stored} {s : Stored} {rest : List Stored} {ls r : Option Nat},
+      MChain C st g hash c → c = s :: rest →
+      recentSearch st.hdrs g.hdr.number target n s.hdr.number hash ls = .ok r →
+      (∀ a ∈ c.take n, a.hdr.signer ≠ some target) ∨
+      (∃ (i : Nat) (a : Stored), c[i]? = some a ∧ i < n ∧ a.hdr.signer = some target ∧ r = some a.hdr.number ∧
+        ∀ (j : Nat) (b : Stored), j < i → c[j]? = some b → b.hdr.signer ≠ some target) := by
+  intro n
+  induction n with
+  | zero => intro hash c s rest ls r _ _ _; left; simp
+  | succ n ih =>
+    intro hash c s rest ls r hc hcs hr
+    subst hcs
+    have hs := hc.head_id.2
+    simp only [recentSearch, hs, bne_self_eq_false, Bool.false_eq_true, if_false] at hr
+    cases hsig : s.hdr.signer with
+    | none => rw [hsig] at hr; cases hr
+    | some signer =>
+      rw [hsig] at hr
+      simp only at hr
+      by_cases ht : signer = target
+      · subst ht
+        simp only [beq_self_eq_true, if_true] at hr
+        cases hr
+        right
+        exact ⟨0, s, by simp, by omega, hsig, rfl, by intro j b hj; omega⟩
+      · have hb : (signer == target) = false := by simpa using ht
+        simp only [hb, Bool.false_eq_true, if_false] at hr
+        have hne : s.hdr.signer ≠ some target := by rw [hsig]; simpa using ht
+        by_cases hg : s.hdr.number ≤ g.hdr.number
+        · -- the trust root has been reached
+          simp only [hg, if_true] at hr
+          left
+          have hroot : hash = g.hdr.id := by
+            by_cases hh : hash = g.hdr.id
+            · exact hh
+            · obtain ⟨_, _, hcr, hgd⟩ := hc.inv_step hh
+              obtain ⟨p, rest', hl, hnum, _⟩ := hgd.link
+              have := hcr.number_ge p (by rw [hl]; exact List.mem_cons_self)
+              omega
+          subst hroot
+          have := hc.at_root
+          simp at this
+          obtain ⟨rfl, rfl⟩ := this
+          intro b hb'
+          have : b = rootOf g := by
+            have := List.mem_of_mem_take hb'
+            simpa using this
+          subst this
+          exact hne
+        · simp only [hg, if_false] at hr
+          have hh : hash ≠ g.hdr.id := by
+            intro he
+            subst he
+            have := hc.at_root
+            simp at this
+            rw [this.1] at hg
+            simp [rootOf] at hg
+          obtain ⟨_, _, hcr, hgd⟩ := hc.inv_step hh
+          obtain ⟨p, rest', hl, hnum, _⟩ := hgd.link
+          subst hl
+          have hpn : s.hdr.number - 1 = p.hdr.number := by omega
+          rw [hpn] at hr
+          rcases ih hcr rfl hr with h1 | ⟨i, a, h1, h2, h3, h4, h5⟩
+          · left
+            intro b hb'
+            simp [List.take_succ_cons] at hb'
+            rcases hb' with rfl | hb'
+            · exact hne
+            · exact h1 b (by simpa using hb')
+          · right
+            refine ⟨i + 1, a, by simpa using h1, by omega, h3, h4, ?_⟩
+            intro j b hj hb'
+            cases j with
+            | zero => simp at hb'; subst hb'; exact hne
+            | succ j => exact h5 j b (by omega) (by simpa using hb')
+
+/-- What an accepting run of msc `verifyHeader` established. -/
+theorem verifyHeader_ok {C : Cfg} {st : St} {g : Genesis} {p : Stored} {h : Hdr} {snap : Snap}
+    (hv : Msc.verifyHeader C st g p h = .inl (.ok snap)) :
+    MWF C h ∧ p.hdr.number + 1 = h.number ∧ ∃ signer ls, h.signer = some signer ∧
+      Msc.snapshot st g (h.number - 1) h.parent signer = .ok snap ls ∧ signer ∈ snap.signers ∧
+      (h.number % C.epoch = 0 → h.valBytes = snap.signers.flatten) ∧
+      Msc.recentBad ls h.number (snap.signers.length / 2 + 1) = false ∧
+      (h.number % snap.signers.length = indexOf signer snap.signers → h.difficulty = diffInTurn) ∧
+      (h.number % snap.signers.length ≠ indexOf signer snap.signers → h.difficulty = diffNoTurn) := by
+  simp only [Msc.verifyHeader] at hv
+  by_cases c1 : (h.number % C.epoch == 0 && h.coinbase != zeroAddr) = true
+  · rw [if_pos c1] at hv; cases hv
+  rw [if_neg c1] at hv
+  by_cases c2 : (h.nonce == Nonce.other) = true
+  · rw [if_pos c2] at hv; cases hv
+  rw [if_neg c2] at hv
+  by_cases c3 : (h.number % C.epoch == 0 && h.nonce != Nonce.drop) = true
+  · rw [if_pos c3] at hv; cases hv
+  rw [if_neg c3] at hv
+  by_cases c4 : h.extra.length < extraVanity
+  · rw [if_pos c4] at hv; cases hv
+  rw [if_neg c4] at hv
+  by_cases c5 : h.extra.length < extraVanity + extraSeal
+  · rw [if_pos c5] at hv; cases hv
+  rw [if_neg c5] at hv
+  by_cases c6 : (!(h.number % C.epoch == 0) && h.extra.length != extraVanity + extraSeal) = true
+  · rw [if_pos c6] at hv; cases hv
+  rw [if_neg c6] at hv
+  by_cases c7 : (h.number % C.epoch == 0 &&
+      (h.extra.length == extraVanity + extraSeal || (h.extra.length - extraVanity - extraSeal) % addrLen != 0)) = true
+  · rw [if_pos c7] at hv; cases hv
+  rw [if_neg c7] at hv
+  by_cases c8 : (!h.mixZero) = true
+  · rw [if_pos c8] at hv; cases hv
+  rw [if_neg c8] at hv
+  by_cases c9 : (!h.uncleOk) = true
+  · rw [if_pos c9] at hv; cases hv
+  rw [if_neg c9] at hv
+  by_cases c10 : (h.difficulty != diffInTurn && h.difficulty != diffNoTurn) = true
+  · rw [if_pos c10] at hv; cases hv
+  rw [if_neg c10] at hv
+  by_cases c11 : (p.hdr.number + 1 != h.number) = true
+  · rw [if_pos c11] at hv; cases hv
+  rw [if_neg c11] at hv
+  by_cases c12 : p.hdr.time + C.period > h.time
+  · rw [if_pos c12] at hv; cases hv
+  rw [if_neg c12] at hv
+  by_cases c13 : h.number = 0
+  · rw [if_pos c13] at hv; cases hv
+  rw [if_neg c13] at hv
+  cases hsig : h.signer with
+  | none => rw [hsig] at hv; cases hv
+  | some signer =>
+  rw [hsig] at hv
+  simp only at hv
+  cases hsn : Msc.snapshot st g (h.number - 1) h.parent signer with
+  | panic => rw [hsn] at hv; cases hv
+  | err e => rw [hsn] at hv; cases hv
+  | ok sn ls =>
+  rw [hsn] at hv
+  simp only at hv
+  by_cases d1 : (!sn.signers.contains signer) = true
+  · rw [if_pos d1] at hv; cases hv
+  rw [if_neg d1] at hv
+  by_cases d2 : (h.number % C.epoch == 0 && h.valBytes != sn.signers.flatten) = true
+  · rw [if_pos d2] at hv; cases hv
+  rw [if_neg d2] at hv
+  by_cases d3 : Msc.recentBad ls h.number (sn.signers.length / 2 + 1) = true
+  · rw [if_pos d3] at hv; cases hv
+  rw [if_neg d3] at hv
+  by_cases d4 : ((h.number % sn.signers.length == indexOf signer sn.signers) && h.difficulty != diffInTurn) = true
+  · rw [if_pos d4] at hv; cases hv
+  rw [if_neg d4] at hv
+  by_cases d5 : (!(h.number % sn.signers.length == indexOf signer sn.signers) && h.difficulty != diffNoTurn) = true
+  · rw [if_pos d5] at hv; cases hv
+  rw [if_neg d5] at hv
+  injection hv with hv
+  injection hv with hv
+  subst hv
+  simp at c1 c2 c3 c6 c7 c8 c9 c10 c11 d1 d2 d3 d4 d5
+  refine ⟨⟨by omega, ?_, ?_, ?_, c8, c9, ?_⟩, c11, signer, ls, rfl, hsn, d1, ?_, d3, d4, d5⟩
+  · intro hne
+    exact c6 hne
+  · intro he
+    have := c7 he
+    refine ⟨by simp only [extraVanity, extraSeal] at *; omega, ?_, c1 he, c3 he⟩
+    simp only [extraVanity, extraSeal, addrLen] at *
+    omega
+  · intro hn; exact c2 hn
+  · by_cases hd : h.difficulty = diffInTurn
+    · exact Or.inl hd
+    · exact Or.inr (c10 hd)
+  · intro he
+    exact d2 he
+
+theorem snapshotTail_ok_search {st : St} {g : Genesis} {n : Nat} {hash : Id} {target : Addr} {snap0 snap : Snap}
+    {ls0 ls : Option Nat} {hs : List Hdr} (h : snapshotTail st g n hash target snap0 ls0 hs = .ok snap ls) :
+    ∃ ls1, recentSearch st.hdrs g.hdr.number target (snap.signers.length / 2) n hash ls1 = .ok ls := by
+  unfold snapshotTail at h
+  cases hap : applyAll target snap0 ls0 hs with
+  | error e => rw [hap] at h; cases h
+  | ok r =>
+    obtain ⟨sn, ls1⟩ := r
+    rw [hap] at h
+    simp only at h
+    cases hrs : recentSearch st.hdrs g.hdr.number target (sn.signers.length / 2) n hash ls1 with
+    | error e => rw [hrs] at h; cases h
+    | ok ls2 =>
+      rw [hrs] at h
+      injection h with h1 h2
+      subst h1 h2
+      exact ⟨ls1, hrs⟩
+
+theorem snapshot_ok_search {st : St} {g : Genesis} {n : Nat} {hash : Id} {target : Addr} {snap : Snap} {ls : Option Nat}
+    (h : Msc.snapshot st g n hash target = .ok snap ls) :
+    ∃ ls1, recentSearch st.hdrs g.hdr.number target (snap.signers.length / 2) n hash ls1 = .ok ls := by
+  unfold Msc.snapshot at h
+  by_cases c0 : n < g.hdr.number
+  · rw [if_pos c0] at h; cases h
+  rw [if_neg c0] at h
+  cases hcol : collect st.hdrs (n + 2) hash [] with
+  | error e => rw [hcol] at h; cases h
+  | ok r =>
+    obtain ⟨cp, nf⟩ := r
+    rw [hcol] at h
+    simp only at h
+    by_cases c1 : cp.hdr.extra.length < extraVanity + extraSeal
+    · rw [if_pos c1] at h; cases h
+    rw [if_neg c1] at h
+    cases hs : cp.hdr.signer with
+    | none => rw [hs] at h; cases h
+    | some cps =>
+      rw [hs] at h
+      exact snapshotTail_ok_search h
+
+theorem syncHeader_cases (C : Cfg) (st : St) (h : Hdr) :
+    (Msc.syncHeader C st h).1 = st ∨
+    ∃ p g snap st', st.hdrs h.id = none ∧ st.hdrs h.parent = some p ∧ st.genesis = some g ∧
+      Msc.verifyHeader C st g p h = .inl (.ok snap) ∧
+      addHeader st h p ⟨0, [], lastVoteLink C p h⟩ = .ok st' ∧ Msc.syncHeader C st h = (st', .ok) := by
+  unfold Msc.syncHeader
+  cases h1 : st.hdrs h.id with
+  | some _ => left; simp
+  | none =>
+    simp only [Option.isSome_none, Bool.false_eq_true, if_false]
+    cases h2 : st.hdrs h.parent with
+    | none => left; rfl
+    | some p =>
+      simp only
+      cases h4 : st.genesis with
+      | none => left; rfl
+      | some g =>
+        simp only
+        cases h3 : Msc.verifyHeader C st g p h with
+        | inr u => left; rfl
+        | inl r =>
+          cases r with
+          | error e => left; rfl
+          | ok snap =>
+            simp only
+            cases h10 : addHeader st h p ⟨0, [], lastVoteLink C p h⟩ with
+            | error e => left; rfl
+            | ok st' =>
+              right
+              refine ⟨p, g, snap, st', ?_, ?_, ?_, ?_, ?_, ?_⟩ <;> first | rfl | trivial | assumption
+
+/-- msc `SyncBlockHeader` keeps the invariant. -/
+theorem syncHeader_inv {C : Cfg} {st : St} (hI : MInv C st) (h : Hdr) : MInv C (Msc.syncHeader C st h).1 := by
+  rcases syncHeader_cases C st h with hsame | ⟨p, g, snap, st', h1, h2, h4, h3, h10, h11⟩
+  · rw [hsame]; exact hI
+  · rw [h11]
+    obtain ⟨hroot, hgn, hep, hall, hCI⟩ := hI.gen g h4
+    obtain ⟨l, hc0⟩ := hall h.parent p h2
+    have hp : h.parent = p.hdr.id := hc0.head_id.1.symm
+    have hc : MChain C st g p.hdr.id (p :: l) := by rw [← hp]; exact hc0
+    obtain ⟨hwf, hnum, signer, ls, hsig, _⟩ := verifyHeader_ok h3
+    obtain ⟨st'', ha1, ha2, ha3, ha4⟩ := addHeader_spec hCI ⟨0, [], lastVoteLink C p h⟩ h1 hc hp hnum
+    rw [h10] at ha1
+    injection ha1 with ha1
+    subst ha1
+    have hne : h.id ≠ g.hdr.id := by
+      intro he; rw [he, hroot] at h1; cases h1
+    have hext : ∀ id s, st.hdrs id = some s → st'.hdrs id = some s := by
+      intro id s hs
+      rw [ha3, upd_other]
+      · exact hs
+      · intro he; rw [he, h1] at hs; cases hs
+    have hgood : MGood C ⟨h, h.difficulty + p.td, lastVoteLink C p h⟩ (p :: l) :=
+      ⟨⟨p, l, rfl, hnum, rfl⟩, ⟨signer, hsig⟩, hwf⟩
+    constructor
+    · intro hn; rw [ha2, h4] at hn; cases hn
+    · intro g' hg'
+      rw [ha2, h4] at hg'
+      injection hg' with hg'
+      subst hg'
+      refine ⟨hext _ _ hroot, hgn, hep, ?_, ha4⟩
+      intro id s hs
+      by_cases hid : id = h.id
+      · subst hid
+        rw [ha3, upd_same] at hs
+        injection hs with hs
+        subst hs
+        refine ⟨p :: l, .step h.id _ (p :: l) hne (by rw [ha3, upd_same]) rfl ?_ hgood⟩
+        simp only
+        rw [hp]
+        exact hc.mono hext
+      · rw [ha3, upd_other _ _ _ _ hid] at hs
+        obtain ⟨l', hc'⟩ := hall id s hs
+        exact ⟨l', hc'.mono hext⟩
+
+/-- msc `SyncGenesisHeader` establishes the invariant. -/
+theorem syncGenesis_inv {C : Cfg} {st : St} (hI : MInv C st) (g : Hdr) : MInv C (Msc.syncGenesis C st g).1 := by
+  unfold Msc.syncGenesis
+  by_cases c0 : C.epoch = 0 ∨ C.period = 0
+  · rw [if_pos c0]; exact hI
+  rw [if_neg c0]
+  cases hgen : st.genesis with
+  | some _ => simpa using hI
+  | none =>
+    obtain ⟨hn1, hn2⟩ := hI.noGen hgen
+    simp only [Option.isSome_none, Bool.false_eq_true, if_false]
+    by_cases c1 : (g.number % C.epoch != 0) = true
+    · rw [if_pos c1]; exact hI
+    rw [if_neg c1]
+    by_cases c2 : g.extra.length = extraVanity + extraSeal
+    · rw [if_pos c2]; exact hI
+    rw [if_neg c2]
+    by_cases c3 : g.extra.length > extraVanity + extraSeal ∧ ((g.extra.length - (extraVanity + extraSeal)) % addrLen != 0) = true
+    · rw [if_pos c3]; exact hI
+    rw [if_neg c3]
+    by_cases c4 : g.extra.length < extraVanity + extraSeal ∧ (((extraVanity + extraSeal) - g.extra.length) % addrLen != 0) = true
+    · rw [if_pos c4]; exact hI
+    rw [if_neg c4]
+    constructor
+    · intro hn; cases hn
+    · intro g' hg'
+      simp only at hg'
+      injection hg' with hg'
+      subst hg'
+      refine ⟨by simp [upd_same, rootOf], by simpa using c1, by omega, ?_, ?_⟩
+      · intro id s hs
+        simp only at hs
+        by_cases hid : id = g.id
+        · subst hid
+          rw [upd_same] at hs
+          injection hs with hs
+          subst hs
+          exact ⟨[], .root (by simp [upd_same, rootOf])⟩
+        · rw [upd_other _ _ _ _ hid, hn1] at hs
+          cases hs
+      · constructor
+        · refine ⟨⟨g, g.difficulty, none⟩, by simp [upd_same], by simp [upd_same], rfl, ?_⟩
+          intro id s hs
+          simp only at hs
+          by_cases hid : id = g.id
+          · subst hid
+            rw [upd_same] at hs
+            injection hs with hs
+            subst hs
+            exact Nat.le_refl _
+          · rw [upd_other _ _ _ _ hid, hn1] at hs
+            cases hs
+        · intro i hi
+          simp only at hi ⊢
+          rw [upd_other _ _ _ _ (by omega)]
+          exact hn2 i
+        · intro i hi
+          simp only at hi ⊢
+          rw [upd_other _ _ _ _ (by omega)]
+          exact hn2 i
+        · simp [upd_same]
+        · intro i h1 h2
+          simp only at h1 h2
+          omega
+
+theorem empty_inv (C : Cfg) : MInv C St.empty :=
+  ⟨fun _ => ⟨fun _ => rfl, fun _ => rfl⟩, fun g hg => by simp [St.empty] at hg⟩
+
+theorem run_inv {C : Cfg} : ∀ (ops : List Msc.Op) {st : St}, MInv C st → MInv C (Msc.run C st ops) := by
+  intro ops
+  induction ops with
+  | nil => intro st hI; exact hI
+  | cons o os ih =>
+    intro st hI
+    apply ih
+    cases o with
+    | genesis g => exact syncGenesis_inv hI g
+    | hdr h => exact syncHeader_inv hI h
+
+/-- What acceptance of a header by msc establishes, in every state satisfying the invariant: the seal recovers to an
+authorized signer of the snapshot the code computes for the parent, who sealed none of the ⌊|signers|/2⌋ nearest
+ancestors (other than a trust root at block 0), with the in-turn / no-turn difficulty and the checkpoint list. -/
+theorem accept_facts {C : Cfg} {st st' : St} (hI : MInv C st) {h : Hdr} (hok : Msc.syncHeader C st h = (st', .ok)) :
+    ∃ g p l signer snap ls, st.genesis = some g ∧ st.hdrs h.parent = some p ∧ Chain st g h.parent (p :: l) ∧
+      p.hdr.number + 1 = h.number ∧ h.signer = some signer ∧
+      Msc.snapshot st g (h.number - 1) h.parent signer = .ok snap ls ∧ signer ∈ snap.signers ∧
+      (∀ a ∈ (p :: l).take (snap.signers.length / 2), a.hdr.signer = some signer → a.hdr.number = 0) ∧
+      (h.number % snap.signers.length = indexOf signer snap.signers → h.difficulty = diffInTurn) ∧
+      (h.number % snap.signers.length ≠ indexOf signer snap.signers → h.difficulty = diffNoTurn) ∧
+      (h.number % C.epoch = 0 → h.valBytes = snap.signers.flatten) ∧ MWF C h := by
+  rcases syncHeader_cases C st h with hsame | ⟨p, g, snap, st2, h1, h2, h4, h3, h10, h11⟩
+  · -- a rejected or skipped header does not report ok
+    exfalso
+    unfold Msc.syncHeader at hok hsame
+    cases h1 : st.hdrs h.id with
+    | some _ => simp [h1] at hok
+    | none =>
+      simp only [h1, Option.isSome_none, Bool.false_eq_true, if_false] at hok
+      cases h2 : st.hdrs h.parent with
+      | none => simp [h2] at hok
+      | some p =>
+        simp only [h2] at hok
+        cases h4 : st.genesis with
+        | none => simp [h4] at hok
+        | some g =>
+          simp only [h4] at hok
+          cases h3 : Msc.verifyHeader C st g p h with
+          | inr u => simp [h3] at hok
+          | inl r =>
+            cases r with
+            | error e => simp [h3] at hok
+            | ok snap =>
+              simp only [h3] at hok
+              cases h10 : addHeader st h p ⟨0, [], lastVoteLink C p h⟩ with
+              | error e => simp [h10] at hok
+              | ok st2 =>
+                obtain ⟨hroot, _, _, hall, hCI⟩ := hI.gen g h4
+                obtain ⟨l, hc0⟩ := hall h.parent p h2
+                have hp : h.parent = p.hdr.id := hc0.head_id.1.symm
+                have hc : MChain C st g p.hdr.id (p :: l) := by rw [← hp]; exact hc0
+                obtain ⟨_, hnum, _⟩ := verifyHeader_ok h3
+                obtain ⟨st'', ha1, _, ha3, _⟩ := addHeader_spec hCI ⟨0, [], lastVoteLink C p h⟩ h1 hc hp hnum
+                simp only [h1, h2, h4, h3, h10, Option.isSome_none, Bool.false_eq_true, if_false] at hsame
+                rw [h10] at ha1
+                injection ha1 with ha1
+                rw [hsame] at ha1
+                have := congrArg (fun s => s.hdrs h.id) ha1
+                simp only [ha3, upd_same, h1] at this
+                cases this
+  · obtain ⟨hroot, _, _, hall, _⟩ := hI.gen g h4
+    obtain ⟨l, hc0⟩ := hall h.parent p h2
+    have hp : h.parent = p.hdr.id := hc0.head_id.1.symm
+    obtain ⟨hwf, hnum, signer, ls, hsig, hsn, hmem, hcp, hrec, ht1, ht2⟩ := verifyHeader_ok h3
+    refine ⟨g, p, l, signer, snap, ls, h4, h2, hc0.toChain, hnum, hsig, hsn, by simpa using hmem, ?_, ht1, ht2, hcp, hwf⟩
+    obtain ⟨ls1, hrs⟩ := snapshot_ok_search hsn
+    have hpn : h.number - 1 = p.hdr.number := by omega
+    rw [hpn] at hrs
+    have hc : MChain C st g h.parent (p :: l) := hc0
+    rcases recentSearch_spec signer _ hc rfl hrs with hnone | ⟨i, a, hi, hlt, hsg, hr, hmin⟩
+    · intro a ha hsa
+      exact absurd hsa (hnone a ha)
+    · -- found within the window: the recent test would have refused unless that block is number 0
+      subst hr
+      have hat := hc.number_at p l rfl i a hi
+      simp [Msc.recentBad] at hrec
+      intro b hb hsb
+      by_cases ha0 : a.hdr.number = 0
+      · -- then `a` is the last member, every member of the window has a number ≥ 0 = a.number: b = a or later
+        obtain ⟨j, hj⟩ := List.mem_iff_getElem?.mp hb
+        rw [List.getElem?_take] at hj
+        split at hj
+        · have hbt := hc.number_at p l rfl j b hj
+          by_cases hji : j < i
+          · exact absurd hsb (hmin j b hji hj)
+          · omega
+        · cases hj
+      · have := hrec (by omega)
+        omega
+
+/-- What the msc invariant says about one stored header above the trust root. -/
+theorem stored_good {C : Cfg} {st : St} (hI : MInv C st) {g : Genesis} (hg : st.genesis = some g)
+    {id : Id} {s : Stored} (hs : st.hdrs id = some s) (hne : id ≠ g.hdr.id) :
+    s.hdr.id = id ∧ (∃ l, Chain st g s.hdr.parent l) ∧
+    ∀ l, Chain st g s.hdr.parent l → MGood C s l ∧ s.td = sumDiff (s :: l) := by
+  obtain ⟨_, _, _, hall, _⟩ := hI.gen g hg
+  obtain ⟨l0, hc⟩ := hall id s hs
+  obtain ⟨_, hid, hcl, hgood⟩ := hc.inv_step hne
+  refine ⟨hid, ⟨l0, hcl.toChain⟩, ?_⟩
+  intro l hl
+  have := Chain.functional hl hcl.toChain
+  subst this
+  exact ⟨hgood, hc.td_sum s l rfl⟩
+
+end MscP
+
 /-! ## A concrete history (non-vacuity of the property statements) -/
 namespace Example
 
@@ -1472,6 +1967,19 @@ def h5 : Hdr := ⟨5, 4, 8, c, some c, 2, List.replicate 97 0, 109, 30000000, 0,
 def h6 : Hdr := ⟨6, 5, 9, d, some d, 1, List.replicate 97 0, 112, 30000000, 0, true, true, none, .drop⟩
 def ops : List Op :=
   [.genesis root [⟨3, [a, b, c], none⟩], .hdr h2, .hdr h3, .hdr h4, .hdr h5, .hdr h6, .hdr h2]
+
+/-- msc: trust root at number 8 (epoch 8) with signers [a, b], sealed by a -/
+def mroot : Hdr :=
+  { id := 1, parent := 0, number := 8, coinbase := Msc.zeroAddr, signer := some a, difficulty := 1,
+    extra := List.replicate 32 0 ++ a ++ b ++ List.replicate 65 0, time := 100, gasLimit := 0, gasUsed := 0,
+    mixZero := true, uncleOk := true, baseFee := none }
+def mhdr (id parent number : Nat) (signer : Addr) (difficulty time : Nat) : Hdr :=
+  { id := id, parent := parent, number := number, coinbase := Msc.zeroAddr, signer := some signer, difficulty := difficulty,
+    extra := List.replicate 97 0, time := time, gasLimit := 0, gasUsed := 0, mixZero := true, uncleOk := true, baseFee := none }
+def m6 : Hdr := mhdr 6 3 11 b 2 106
+def mscOps : List Msc.Op :=
+  [.genesis mroot, .hdr (mhdr 2 1 9 b 2 102), .hdr (mhdr 3 2 10 a 2 104), .hdr (mhdr 4 3 11 a 1 106),
+   .hdr (mhdr 5 3 11 c 1 106)]
 
 end Example
 
